@@ -65,12 +65,19 @@ def oracle(case):
     out.cls("v" + lastext.spec_version(spec))
     out.nontrivial = bool(feats)
     out.sample = spec_summary(spec, 900)
-    las = read_spec(spec, mnemonic_case=mc, engine=case.get("engine", "numpy"))
+    kw = {"ignore_data": True} if case.get("ignore_data") else {}
+    if kw:
+        out.cls("ignore_data")
+    las = read_spec(spec, mnemonic_case=mc, engine=case.get("engine", "numpy"), **kw)
     lowtag = "lower-title" if lower else "upper"
     if is_raised(las):
         out.fail("read-raises|%s|%s" % (las.bucket, lowtag), "%s\n%s" % (las, spec_summary(spec)))
         return out
     diffs, got, exp = compare_with_expected(las, spec, mnemonic_case=mc)
+    if case.get("ignore_data"):
+        # no data were read: curves keep their declared items (no unnamed curves are created), arrays are not compared
+        ncur = sum(1 for s_ in spec["sections"] if s_["kind"] == "C" for ln in s_["lines"] if ln["t"] == "item")
+        diffs = [x for x in diffs if not x[0].startswith("data") and not (x[0] == "Curves.len" and len(got["sections"]["Curves"]["items"]) == ncur)]
     if diffs:
         loc = diffs[0][0]
         tag = lowtag if lower else ("steer:" + ",".join(sorted({m.upper() for k, m in steer})) if steer else
@@ -138,6 +145,9 @@ def specs(draw, lower_titles=True, steering=True):
         ol = [{"t": "text", "text": draw(st.sampled_from([t("note "), "MNEM.UNIT  value : descr " + t("o"), "1.0 2.0 3.0",
                                                         t("free text "), "VERS. 1.2 : fake", "NULL. 10.1 : fake"]))}
               for _ in range(draw(st.integers(0, 3)))]
+        if len(ol) >= 2 and draw(st.integers(0, 2)) == 0:
+            # a blank line between two lines of ~Other is part of the text
+            ol.insert(draw(st.integers(1, len(ol) - 1)), {"t": "blank", "text": draw(st.sampled_from(["", "  "]))})
         others.append(lastext.section("O", title("O"), ol))
     used_titles = set()
     for _ in range(draw(st.sampled_from([0, 0, 1, 1, 2, 3]))):
@@ -163,8 +173,11 @@ def specs(draw, lower_titles=True, steering=True):
                                                     {"t": "blank", "text": "   "}])))
     spec = {"nl": draw(st.sampled_from(["\n", "\n", "\r\n"])), "final_nl": draw(st.sampled_from([True, True, False])),
             "sections": secs}
-    return {"spec": spec, "mnemonic_case": draw(st.sampled_from(["upper", "preserve", "lower"])),
+    case = {"spec": spec, "mnemonic_case": draw(st.sampled_from(["upper", "preserve", "lower"])),
             "engine": draw(st.sampled_from(["numpy", "normal"])), "steer": steer_used}
+    if draw(st.integers(0, 7)) == 0:
+        case["ignore_data"] = True  # header sections are attributed the same way when the data are not wanted
+    return case
 
 
 def title_grid(tier):
